@@ -22,7 +22,7 @@
    source on the compiled C (every received subset of small codes, sampled subsets up to n = 255). *)
 From Coq Require Import Arith List Bool.
 From Coq Require Import NArith.
-From OFV Require Import ListAux RSApi RSApiProofs GF2Poly RSCanon GaussJordan RSCore.
+From OFV Require Import ListAux RSApi RSApiProofs GF2Poly RSCanon GaussJordan RSCore RSSession.
 Import ListNotations.
 
 Theorem rs_complete_iff_k_distinct :
@@ -108,7 +108,59 @@ Theorem rs256_sessions_complete_iff_k_distinct :
   (rs_is_complete (run N (fun k' t => rs_core256 k' n t) cb mk k n h) = true <-> k <= ndistinct n (map fst h)).
 Proof. exact rs256_api_complete_iff_k_distinct. Qed.
 
+(* the property itself, for the composed model (API layer + decoding core), both submission APIs:
+   once any k distinct codeword symbols have been submitted - any order, duplicates - decoding completes and
+   the source table is the original k sources; with fewer than k the decoder never reports completion and
+   of_finish_decoding returns FAILURE.  (One field element per symbol; a symbol of L bytes is L such columns.) *)
+Theorem rs256_any_k_symbols_recover_the_block :
+  forall (cb : bool) (k n : nat) (src : list N) (h : list (nat * N)),
+  1 <= k <= n -> n <= 256 -> length src = k -> Forall (fun a => (a < 256)%N) src ->
+  (forall ev, In ev h -> fst ev < n /\ snd ev = elem256 k src (fst ev)) ->
+  k <= ndistinct n (map fst h) ->
+  let core := fun k' t => rs_core256 k' n t in
+  let r := rs_finish core cb mkid (run N core cb mkid k n h) in
+  snd r = OK /\ rs_source_tab (fst r) = Some (map Some src).
+Proof. exact rs256_session_recovers_the_sources. Qed.
+
+Theorem rs256_any_k_symbols_recover_the_block_bulk_api :
+  forall (cb : bool) (k n : nat) (src : list N) (t : list (option N)),
+  1 <= k <= n -> n <= 256 -> length src = k -> Forall (fun a => (a < 256)%N) src -> length t = n ->
+  (forall e, e < n -> nth e t None = None \/ nth e t None = Some (elem256 k src e)) -> k <= count_some t ->
+  let core := fun k' t => rs_core256 k' n t in
+  let r := rs_finish core cb mkid (fst (rs_set_available (rs_init N k n) t)) in
+  snd r = OK /\ rs_is_complete (fst r) = true /\ rs_source_tab (fst r) = Some (map Some src).
+Proof. exact rs256_avail_recovers_the_sources. Qed.
+
+Theorem rs256_fewer_than_k_symbols_fail :
+  forall (cb : bool) (mk : nat -> N -> N) (k n : nat) (h : list (nat * N)),
+  1 <= k <= n -> n <= 256 -> (forall ev, In ev h -> fst ev < n) -> ndistinct n (map fst h) < k ->
+  let core := fun k' t => rs_core256 k' n t in
+  let r := rs_finish core cb mk (run N core cb mk k n h) in
+  snd r = FAILURE /\ rs_source_tab (fst r) = None /\ rs_is_complete (run N core cb mk k n h) = false.
+Proof. exact rs256_session_too_few. Qed.
+
+Theorem rs16_any_k_symbols_recover_the_block :
+  forall (cb : bool) (k n : nat) (src : list N) (h : list (nat * N)),
+  1 <= k <= n -> n <= 16 -> length src = k -> Forall (fun a => (a < 16)%N) src ->
+  (forall ev, In ev h -> fst ev < n /\ snd ev = elem16 k src (fst ev)) ->
+  k <= ndistinct n (map fst h) ->
+  let core := fun k' t => rs_core16 k' n t in
+  let r := rs_finish core cb mkid (run N core cb mkid k n h) in
+  snd r = OK /\ rs_source_tab (fst r) = Some (map Some src).
+Proof. exact rs16_session_recovers_the_sources. Qed.
+
+Theorem rs16_fewer_than_k_symbols_fail :
+  forall (cb : bool) (mk : nat -> N -> N) (k n : nat) (h : list (nat * N)),
+  1 <= k <= n -> n <= 16 -> (forall ev, In ev h -> fst ev < n) -> ndistinct n (map fst h) < k ->
+  let core := fun k' t => rs_core16 k' n t in
+  let r := rs_finish core cb mk (run N core cb mk k n h) in
+  snd r = FAILURE /\ rs_source_tab (fst r) = None /\ rs_is_complete (run N core cb mk k n h) = false.
+Proof. exact rs16_session_too_few. Qed.
+
 Print Assumptions rs_complete_iff_k_distinct.
+Print Assumptions rs256_any_k_symbols_recover_the_block.
+Print Assumptions rs256_fewer_than_k_symbols_fail.
+Print Assumptions rs16_any_k_symbols_recover_the_block.
 Print Assumptions rs256_core_returns_the_sources.
 Print Assumptions rs256_sessions_complete_iff_k_distinct.
 Print Assumptions gf256_matrix_inversion_returns_the_inverse.
